@@ -23,8 +23,12 @@ RULE = ('a real EventMgr on a temp root and the in-memory ZooKeeper holding /pla
         '(case, app, point). 1 case in 4 stores the manifests as byte-identical legacy YAML (replicas of one application). '
         '(3) service loop: the real EventMgr.run() with its presence DataWatch and placement ChildrenWatch; time.sleep '
         '(the heartbeat) applies the next scripted change - instances placed (JSON or shared YAML manifest), evicted one '
-        'by one down to an empty node, presence lost / regained, start with stale files and nothing placed - and after '
-        'every change the cache must mirror the placement. Distinct by '
+        'by one down to an empty node, presence lost / regained, start with stale files and nothing placed, a connection '
+        'loss while a watch-triggered synchronisation reads a manifest - and after every change the cache must mirror the '
+        'placement. Watch notifications are delivered on a separate thread (as kazoo does); os._exit is intercepted as '
+        'the death of the process, after which a new agent is started on a new session (the supervisor); a '
+        'service that keeps exiting is checked after six restarts. Every other shard runs under the C locale without '
+        'UTF-8 mode (text files are ASCII); manifests may contain non-ASCII text. Distinct by '
         '(case, app, point).')
 ASSUMPTIONS = ['in-memory ZooKeeper fake; real filesystem under a temp dir', 'EventMgr._hostname set by the harness',
                'what another process (or the disk after a kill) sees at an instant is what the kernel has: the harness reads the directory from inside the hook without flushing the writer\'s buffers',
@@ -38,6 +42,14 @@ REQUIRED_REACH = {'*': ['sync_calls', 'files_written_checked', 'extra_removed', 
 TOOL = 3
 
 
+def SHARD_ENV(shard, _seed):      # pylint: disable=invalid-name
+    """Every other shard runs the node agent the way a daemon started from a bare init environment runs:
+    C locale, no UTF-8 mode, no locale coercion (text files are then written in ASCII)."""
+    if shard % 2:
+        return {'LC_ALL': 'C', 'LANG': 'C', 'PYTHONUTF8': '0', 'PYTHONCOERCECLOCALE': '0'}
+    return {}
+
+
 def gen_manifest(rng, big=False):
     man = {'memory': '%dM' % rng.choice([100, 512]), 'cpu': '%d%%' % rng.choice([10, 100]), 'disk': '1G',
            'services': [{'name': 'web', 'command': '/bin/sleep %d' % rng.randint(1, 99), 'restart': {'limit': 5, 'interval': 60}}],
@@ -46,6 +58,9 @@ def gen_manifest(rng, big=False):
            'proid': 'proid', 'affinity': 'proid.web'}
     if rng.random() < 0.3:
         man['identity'] = rng.choice([None, 7])          # the placement's value must win
+    if rng.random() < 0.25:
+        # manifests are JSON documents: any text is legal in a value
+        man['environ'].append({'name': 'CITY', 'value': rng.choice(['Z\u00fcrich', '\u6771\u4eac', 'caf\u00e9 \u2013 bar'])})
     if big:
         man['environ'] += [{'name': 'BIG%d' % i, 'value': 'x' * 200} for i in range(rng.randint(60, 200))]
     return man
@@ -53,6 +68,13 @@ def gen_manifest(rng, big=False):
 
 class _Stop(BaseException):
     pass
+
+
+class _ProcessExit(BaseException):
+    """os._exit() of the service process (its supervisor starts it again)."""
+    def __init__(self, code):
+        super().__init__(code)
+        self.code = code
 
 
 def service_loop_case(ctx, idx, rng):
@@ -70,18 +92,45 @@ def service_loop_case(ctx, idx, rng):
     root = tempfile.mkdtemp(prefix='vf-c12s-')
     real_sleep = _time.sleep
     try:
+        import threading
+        import kazoo.exceptions
         srv = zkfake.ZkServer()
         srv.keep_log = False
-        zk = srv.client('eventmgr')
         adm = srv.client('admin')
         adm.ensure_path(z.SCHEDULED)
         adm.ensure_path(z.SERVER_PRESENCE)
         adm.ensure_path(z.PLACEMENT)
-        context.GLOBAL.zk._conn = zk       # pylint: disable=protected-access
-        mgr = eventmgr.EventMgr(root)
-        mgr._hostname = host           # pylint: disable=protected-access
-        cache = mgr.tm_env.cache_dir
+        cache = eventmgr.EventMgr(root).tm_env.cache_dir
         os.makedirs(cache, exist_ok=True)
+        current = {'zk': None}
+        exited = []
+        fault = [False]
+        real_exit = os._exit
+
+        def fake_exit(code):
+            raise _ProcessExit(code)
+
+        def on_op(client, op, path):
+            if fault[0] and client is current['zk'] and op == 'get' and path.startswith(z.SCHEDULED + '/'):
+                fault[0] = False
+                ctx.count('service_loop_connection_loss_injected')
+                raise kazoo.exceptions.ConnectionLoss('injected')
+        srv.on_op = on_op
+
+        def pump():
+            """Watch notifications reach the agent on its ZooKeeper callback thread, not on its main thread."""
+            def body():
+                try:
+                    srv.deliver()
+                except _ProcessExit as e:
+                    exited.append(e.code)
+                except SystemExit:
+                    ctx.count('service_loop_callback_thread_ended_silently')      # what threading does with SystemExit
+            t = threading.Thread(target=body)
+            t.start()
+            t.join()
+            if exited:
+                raise _ProcessExit(exited.pop())
         shared = gen_manifest(rng, False)
         placed = {}           # instance -> expected content
         counter = [0]
@@ -120,11 +169,13 @@ def service_loop_case(ctx, idx, rng):
             placed[a] = exp
             zkutils.put(adm, z.path.placement(host, a), pdata)
             log.append(('place', a, 'yaml' if yaml_payload else 'json', pdata))
+            pump()
 
         def evict(a):
             del placed[a]
             adm.delete(z.path.placement(host, a))
             log.append(('evict', a))
+            pump()
 
         def check(when):
             ctx.count('service_loop_checks')
@@ -160,9 +211,17 @@ def service_loop_case(ctx, idx, rng):
                 if rng.random() < 0.6:
                     adm.ensure_path(z.path.placement(host))
                     log.append(('placement-node',))
+                    pump()
                 return
-            op = rng.choice(['place', 'place', 'place2', 'evict', 'evict', 'evict-all', 'presence'])
-            if op == 'place':
+            op = rng.choice(['place', 'place', 'place2', 'evict', 'evict', 'evict-all', 'presence', 'fault'])
+            if op == 'fault':
+                # the connection drops while a synchronisation triggered by a placement event reads a manifest:
+                # the callback fails, the process exits, its supervisor restarts it and the restart synchronises
+                fault[0] = True
+                log.append(('connection-loss-armed',))
+                place()
+                fault[0] = False
+            elif op == 'place':
                 place()
             elif op == 'place2':
                 place()
@@ -181,24 +240,48 @@ def service_loop_case(ctx, idx, rng):
                 else:
                     adm.create(z.path.server_presence(host), b'{}', ephemeral=True)
                 log.append(('presence',))
+                pump()
             check(op)
 
         _time.sleep = sleep_hook
+        os._exit = fake_exit
+        srv.sync_delivery = False
         try:
-            mgr.run(once=False)
-        except _Stop:
-            pass
-        except Exception:      # noqa
-            et, ev, tb = sys.exc_info()
-            ctx.violation('exception:%s@run' % et.__name__, str(ev), witness=traceback.format_exc()[-800:], case=dict(case=idx, log=log[-12:]))
+            for incarnation in range(6):
+                zk = srv.client('eventmgr-%d' % incarnation)
+                current['zk'] = zk
+                context.GLOBAL.zk._conn = zk       # pylint: disable=protected-access
+                mgr = eventmgr.EventMgr(root)
+                mgr._hostname = host           # pylint: disable=protected-access
+                try:
+                    mgr.run(once=False)
+                except _Stop:
+                    break
+                except _ProcessExit:
+                    ctx.count('service_loop_process_exits')
+                    log.append(('process-exit-and-restart',))
+                    srv.expire(zk.sid)
+                    del exited[:]
+                    continue
+                except Exception:      # noqa
+                    et, ev, tb = sys.exc_info()
+                    ctx.violation('exception:%s@run' % et.__name__, str(ev), witness=traceback.format_exc()[-800:], case=dict(case=idx, log=log[-12:]))
+                    break
+            else:
+                # the service keeps exiting: whatever is placed must still get its cache file eventually
+                check('six restarts in a row')
         finally:
             _time.sleep = real_sleep
+            os._exit = real_exit
+            srv.sync_delivery = True
+            srv.on_op = None
         if stale:
             ctx.count('service_loop_started_with_stale_files')
         ctx.count('service_loop_cases')
         ctx.done(case_desc=('loop', idx, len(log)), nontrivial=False, evals=n_step[0])
     finally:
         _time.sleep = real_sleep
+        os._exit = real_exit if 'real_exit' in dir() else os._exit
         shutil.rmtree(root, ignore_errors=True)
 
 
